@@ -92,6 +92,16 @@ def make_cases(rng, order, tier, maxl):
         sb = dict(sa); sb["c"] = B
         u = gen.rand_ecp(rng, rng.randint(0, min(maxl, 2)), C, nper=(1, 1))
         cases.append({"id": "d%d_twin_%d" % (order, k), "extra": {"order": order, "geom": "twin-shells"}, "shells": [sa, sb], "ecps": [u]})
+    # tight shells on opposite sides of the ECP (a trans / linear X-M-X arrangement): their mutual overlap exp(-mu R_AB^2) is far below
+    # any threshold while both still reach the ECP, whose semi-local part does not decay with R_AB
+    for k in range(6 if tier == "quick" else 40):
+        LA = rng.randint(0, max(0, min(lim2, 2))); LB = rng.randint(0, max(0, min(lim2, 2)))
+        C = gen.rand_point(rng, 0.0, 1.0)
+        u = gen.rand_dir(rng); d1 = rng.uniform(1.4, 2.4); d2 = rng.uniform(1.4, 2.4)
+        A = [c + d1 * x for c, x in zip(C, u)]; B = [c - d2 * x + 0.05 * y for c, x, y in zip(C, u, gen.rand_dir(rng))]
+        sa = gen.rand_shell(rng, LA, A, nprim=rng.randint(1, 2), emin=5.0, emax=14.0); sb = gen.rand_shell(rng, LB, B, nprim=rng.randint(1, 2), emin=5.0, emax=14.0)
+        uu = gen.rand_ecp(rng, rng.randint(1, min(maxl, 2)), C, nper=(1, 1), amin=0.3, amax=2.0)
+        cases.append({"id": "d%d_trans_%d" % (order, k), "extra": {"order": order, "geom": "trans-tight"}, "shells": [sa, sb], "ecps": [uu]})
     for k in range(8 if tier == "quick" else 50):
         LA = rng.randint(0, max(0, min(lim2, 2))); LB = rng.randint(0, max(0, min(lim2, 2)))
         A, B, C = gen.geometry(rng, rng.choice(["distinct", "distinct", "A=B", "B=C"]))
